@@ -32,6 +32,7 @@ type Profile struct {
 	Rich       bool // rich payload / attribute domains
 	MaxAttempt []int32
 	Decoy      bool
+	ProbeOnly  bool // every pull is probe-sized (twin runs)
 }
 
 var attrNames = []string{"a", "b", "kind"}
@@ -338,7 +339,7 @@ func (g *Gen) Step() {
 				dlDue = true
 			}
 		}
-		if !dlDue && r.Intn(3) == 0 {
+		if !dlDue && r.Intn(3) == 0 && !g.P.ProbeOnly {
 			max = 1 + r.Intn(3)
 		}
 		w.Pull(s.Name, max)
